@@ -28,14 +28,14 @@ def witness(title_prefix):
 from props._skiptable import skip_table, run_outcome_table
 
 
-from props._em import EMStream, em_table
+from props._em import EMStream, em_table, em_join_table
 
 
 from props import _project
 
 
 def tables(ctx):
-    return [skip_table(), em_table(), run_outcome_table(), _project.project_run_table()]
+    return [skip_table(), em_table(), em_join_table(), run_outcome_table(), _project.project_run_table()]
 
 
 class EM(EMStream):
